@@ -5,7 +5,8 @@ VERIF = os.path.dirname(os.path.dirname(os.path.abspath(__file__)))
 LEVEL_NOTE = ("Trusted: Coq 8.16.1 kernel and vm_compute (no native_compute, no extraction); the axioms printed by Print Assumptions "
               "(none for list/ring theorems; the four standard-library real-number/classical axioms for theorems over R); the hand-written "
               "Gallina model, tied to /repo's working tree on every run by differential execution (Rust executor vs vm_compute of the same "
-              "Gallina functions); the executor, its Rat type and the python driver. ")
+              "Gallina functions) and, where a model_is_source theorem is pinned, by source translators whose output is proved equal to it; "
+              "the translators (regular-expression / recursive-descent programs over a fixed Rust subset); the executor, its Rat type and the python driver. ")
 
 import sys, importlib
 sys.path.insert(0, os.path.dirname(os.path.abspath(__file__)))
@@ -30,7 +31,19 @@ def main():
     for p in props:
         pid = p["id"]
         if pid in CHECKS:
-            c = CHECKS[pid]
+            c = dict(CHECKS[pid])
+            try:
+                props = open(os.path.join(VERIF, "coq", "Props", pid + ".v")).read()
+            except OSError:
+                props = ""
+            import re as _re
+            mis = _re.findall(r"^Theorem\s+(model_is_source[A-Za-z0-9_]*)", props, _re.M)
+            if mis and "model_is_source" not in c["text"]:
+                c["text"] += (" Tie by proof: the functions of the anchored source files are REGENERATED from /repo/src on every run by a source "
+                              "translator (driver/translate.py, driver/rust2coq.py -> coq/gen/*.v) and proved equal, for all arguments, to the hand-written "
+                              "model the theorems are about (%s): a change of a loop bound, index, operator, guard or statement order in the source breaks "
+                              "that proof obligation." % ", ".join(mis))
+                c["technique"] += " + source-to-Gallina translation re-proved equal to the model on every run"
             checks.append({
                 "property_id": pid,
                 "quick_cmd": "./check %s --tier quick" % pid,
@@ -56,7 +69,7 @@ def main():
                   "source_commits": commits, "add_only": True},
         "engines": [{"name": "coq-proof+correspondence", "path": "/verif/coq, /verif/harness, /verif/driver",
                      "serves_properties": sorted(CHECKS.keys()),
-                     "kind_free_text": "machine-checked proof in Coq 8.16 about an executable Gallina model; model tied to the code by differential execution on every run; python oracle searches for failing inputs"}],
+                     "kind_free_text": "machine-checked proof in Coq 8.16 about an executable Gallina model; model tied to the code on every run by differential execution (Rust executor vs vm_compute) and by source translators that regenerate parts of the model from /repo/src with proofs that the hand-written model equals them; python oracle searches for failing inputs"}],
         "checks": checks,
         "not_applicable": na,
         "notes": "See DESIGN.md. KNOWN_FINDINGS.txt lists repaired (fixed:) and recorded (open:) defects.",
